@@ -13,6 +13,7 @@ META = {
     "level_text": "Machine-checked proofs (Coq 8.16, axiom-free): wf_answer q a = true and a closed query imply apply_answer a q = Ok _ (SubstFolder with its three panic sites modelled); canonicalization produces closed, well-kinded values with one binder per unbound class. Tie to /repo on every run: programs and goals (types, lifetimes and consts as unknowns, nested forall/exists, hypotheses) are solved by the real SLG and recursive solvers (forked child, CPU limit) and by solve_multiple; every Canonical<ConstrainedSubst> / guidance substitution is dumped with the query's canonical binders and universe count, checked with the Coq wf_answer (must be true), applied with the real Substitution::apply (must not panic), and the result compared with the model's.",
     "level_note": "Trusted: Coq kernel; models coq/Infer/{Answer,Canon}.v (tied by correspondence on generated cases only); harness conversion chalk_ir->sexp. The answer-construction functions of the engines themselves (root_answer, Fulfill::solve's final canonicalization, make_solution) are NOT modelled: for them the check is a search for a failing input, not a proof (rec_answer_wf / slg_answer_wf of DESIGN are not proved). Region constraints of a ConstrainedSubst are outside wf_answer (the property speaks of the substitution). A solver panic whose location is in the answer/canonicalization layer is reported as a violation; other panics, timeouts and aborts are counted as inconclusive.",
     "design_ref": "DESIGN.md section 4 C28",
+    "bins": ["canon"],
     "assumptions": ["const types are usize (ChalkIr lowering)", "solver runs that time out, abort or panic outside the answer layer are inconclusive (counted in coverage)"],
     "quick_s": 60, "thorough_s": 420,
 }
